@@ -7,7 +7,7 @@ _STUB = ["meta service (not needed at shard level)", "SQL layer (statements pars
          "timers: size/time triggered flush and the compaction worker are switched off; flush/compaction/merge are client operations"]
 
 WORLDS = {
-    "C": {"pkg": "engine", "harness": "engine", "test": "TestVerifWorldC", "cpu": 1,
+    "C": {"pkg": "engine", "harness": "engine", "test": "TestVerifWorldC", "hang_is_violation": True, "cpu": 1,
           # one P and no asynchronous preemption: goroutines switch only where they block, park or yield
           # VERIF_C_YIELD_EXCLUDE: comma-separated substrings of yield-site names where no goroutine is ever parked
           "env": {"GODEBUG": "asyncpreemptoff=1", "VERIF_C_YIELD_EXCLUDE": ""},
